@@ -77,7 +77,7 @@ def main():
                 rc, out = sh('timeout 900 /tmp/demo-%s 2>&1 | tail -5' % sid)
                 rc2, _ = sh('timeout 900 /tmp/demo-%s >/dev/null 2>&1' % sid)
             else:
-                rc2, out = sh('WT=%s bash %s 2>&1 | tail -5' % (wt, os.path.join(src, demo)), cwd=wt, timeout=900)
+                rc2, out = sh('WT=%s ROOT=%s BUILD=%s/_b B=%s/_b bash %s 2>&1 | tail -5' % (wt, wt, wt, wt, os.path.join(src, demo)), cwd=wt, timeout=900)
             meta['ran'].append('%s: demo exit %d: %s' % (tag, rc2, out.strip()[-160:]))
             return rc2
 
